@@ -32,7 +32,7 @@ var c16Reviewed = map[string]string{
 func C16(p *ir.Program, r *report.R) {
 	c := C{p, r}
 	r.Floor = 40
-	r.Explain = "Decided: no panic-capable operation on peer-controlled data is reachable, unguarded, in the consensus goroutine (which logs and EXITS on panic) and in the gossip goroutines (no recover). Taint sources are the message structs delivered to ConsensusState.handleMsg (proposal, block part, vote) and the proposal block decoded from peer parts; taint flows field-insensitively below a tainted root and through parameter binding with per-function summaries to a fixed point over packages consensus, consensus/types, types, libs/common, libs/crypto/merkle. Sinks: dereference of pointers/interfaces loaded from tainted data (every pointer inside a decoded message is optional), index/slice bounds and allocation sizes computed from tainted integers, unchecked type assertions, division. A sink is discharged by a dominating guard on the same operand or by a reviewed-table row. NOT decided: resource exhaustion by volume, liveness under flooding, the blockchain/mempool/evidence channels, panics inside third-party code."
+	r.Explain = "Decided: no panic-capable operation on peer-controlled data is reachable, unguarded, in the consensus goroutine (which logs and EXITS on panic) and in the gossip goroutines (no recover). Taint sources are the message structs delivered to ConsensusState.handleMsg (proposal, block part, vote) and the proposal block decoded from peer parts; taint flows field-insensitively below a tainted root and through parameter binding with per-function summaries to a fixed point over packages consensus, consensus/types, types, libs/common, libs/crypto/merkle. Sinks: dereference of pointers/interfaces loaded from tainted data (every pointer inside a decoded message is optional), index/slice bounds and allocation sizes computed from tainted integers, unchecked type assertions, division. A sink is discharged by a dominating guard on the same operand or by a reviewed-table row. ADDED after seeded-change testing: Lock regions: between a non-deferred Lock of the consensus mutex and its Unlock inside a reactor Receive only field reads and size getters occur (a recovered panic there would leave the mutex locked for ever). NOT decided: resource exhaustion by volume, liveness under flooding, the blockchain/mempool/evidence channels, panics inside third-party code."
 	r.Trusted = []string{"MConnection._recover turns a reactor-side panic into a dropped peer", "libs/ser decoding (C11)"}
 
 	scope := func(f *ssa.Function) bool {
@@ -294,6 +294,102 @@ func C16(p *ir.Program, r *report.R) {
 	}
 	_ = c
 	_ = fmt.Sprint
+
+	// ---- no peer-driven panic while the consensus mutex is held without defer ------------------------
+	// Reactor Receive methods run in the connection's receive goroutine, whose panics are recovered
+	// (the peer is dropped). A panic between a plain Lock() and its Unlock() would leave the mutex
+	// locked for ever: handleMsg, handleTimeout and every other peer would block — one message
+	// halts consensus silently. Inside such a region only reads and the listed size getters may occur.
+	{
+		allowed := []string{"types.ValidatorSet.Size", "types.VoteSet.Size", "sync.Mutex.Unlock", "sync.RWMutex.Unlock", "sync.RWMutex.RUnlock", "log.*"}
+		nRegions := 0
+		for _, fn := range p.Funcs {
+			if fn.Pkg == nil || fn.Blocks == nil || fn.Name() != "Receive" || fn.Signature.Recv() == nil || strings.HasSuffix(p.Pos(fn.Pos()), "_test.go") {
+				continue
+			}
+			rel := ir.RelPkg(fn.Pkg.Pkg)
+			if rel != "consensus" && rel != "mempool" && rel != "blockchain" && rel != "evidence" {
+				continue
+			}
+			deferred := map[string]bool{}
+			ir.Instrs(fn, func(in ssa.Instruction) {
+				if d, ok := in.(*ssa.Defer); ok {
+					n := ir.CalleeName(d)
+					if strings.HasSuffix(n, ".Unlock") || strings.HasSuffix(n, ".RUnlock") {
+						deferred[Arg(d, 0)] = true
+					}
+				}
+			})
+			ir.Instrs(fn, func(in ssa.Instruction) {
+				call, ok := in.(*ssa.Call)
+				if !ok {
+					return
+				}
+				n := ir.CalleeName(call)
+				if !(n == "sync.Mutex.Lock" || n == "sync.RWMutex.Lock" || n == "sync.RWMutex.RLock") {
+					return
+				}
+				mu := Arg(call, 0)
+				if deferred[mu] {
+					return
+				}
+				nRegions++
+				isUnlock := func(x ssa.Instruction) bool {
+					c2, ok := x.(*ssa.Call)
+					if !ok {
+						return false
+					}
+					n2 := ir.CalleeName(c2)
+					return (strings.HasSuffix(n2, ".Unlock") || strings.HasSuffix(n2, ".RUnlock")) && Arg(c2, 0) == mu
+				}
+				// walk forward from the Lock until the Unlock on every path, collecting calls
+				var bad []string
+				seen := map[*ssa.BasicBlock]bool{}
+				var walk func(b *ssa.BasicBlock, from int)
+				walk = func(b *ssa.BasicBlock, from int) {
+					for i := from; i < len(b.Instrs); i++ {
+						x := b.Instrs[i]
+						if isUnlock(x) {
+							return
+						}
+						if ci, ok := x.(ssa.CallInstruction); ok {
+							cn := ir.CalleeName(ci)
+							if _, isBuiltin := ci.Common().Value.(*ssa.Builtin); isBuiltin {
+								continue
+							}
+							okc := false
+							for _, a := range allowed {
+								if ir.Match(a, cn) {
+									okc = true
+								}
+							}
+							if !okc {
+								bad = append(bad, cn+"@"+p.InstrPos(x))
+							}
+						}
+						switch x.(type) {
+						case *ssa.Index, *ssa.IndexAddr, *ssa.TypeAssert, *ssa.Slice:
+							if ta, ok := x.(*ssa.TypeAssert); ok && ta.CommaOk {
+								continue
+							}
+							bad = append(bad, fmt.Sprintf("%T@%s", x, p.InstrPos(x)))
+						}
+					}
+					for _, sb := range ir.Info(fn).Succs[b] {
+						if !seen[sb] {
+							seen[sb] = true
+							walk(sb, 0)
+						}
+					}
+				}
+				walk(in.Block(), ir.InstrIndex(in)+1)
+				r.Check("K10", "lock-region/"+ir.FuncName(fn)+"/"+mu, p.InstrPos(in), len(bad) == 0,
+					fmt.Sprintf("between %s.Lock() and its Unlock() (no defer) only field reads and size getters occur; found: %v", mu, bad))
+			})
+		}
+		r.Check("K10", "lock-region/sites", "-", nRegions >= 3, fmt.Sprintf("%d non-deferred lock regions found in reactor Receive methods (confirmed by hand: 3 in consensus)", nRegions))
+	}
+
 }
 
 var _ = report.Discharged
